@@ -199,7 +199,9 @@ func showNested(a string) string {
 	return sb.String()
 }
 
-func isWS(c byte) bool { return c == ' ' || c == '\t' || c == '\n' || c == '\r' || c == '\f' || c == '\v' }
+func isWS(c byte) bool {
+	return c == ' ' || c == '\t' || c == '\n' || c == '\r' || c == '\f' || c == '\v'
+}
 
 // matchWant compares a rendering with a want from the reference. Second result:
 // the want was "unconstrained".
@@ -299,6 +301,7 @@ func (c *checker) cmp(group string, size int, caseKey string, fn string, got *ml
 		return
 	}
 	g := render(got)
+	w.AddSet("outcome-kinds", fn+":"+got.GetTypeName())
 	ok, un := matchWant(g, want)
 	if un {
 		w.Count("unconstrained:"+fn, 1)
@@ -320,7 +323,7 @@ func (c *checker) cmp(group string, size int, caseKey string, fn string, got *ml
 
 func run(c *vf.Ctx) {
 	c.Rule = "every (function, argument tuple) of each family is evaluated on the real BIF (or through an in-process mlr run for operators, verbs and flags) and compared with the Python reference or with a law on the real code. " +
-		"Families: str = all strings of <=3 symbols over {a,B,space,e-acute,CJK,e+combining,0xff,tab} x indices -5..5 (pairs) x widths 0..5 x pads; regex = all regexes of <=N AST nodes over {a,b,.,[ab],^,$,*,+,?,|,()} x all subjects of length <=L over {a,b,c} x replacement strings, also case-insensitive on {a,A,b,c}; " +
+		"Families: str = all strings of <=3 symbols over {a,B,space,e-acute,CJK,e+combining,0xff,tab} x indices -5..5 (pairs) x widths 0..5 x pads; regex = all regexes of <=N AST nodes over {a,b,.,[ab],^,$,*,+,?,|,()} x all subjects of length <=L over {a,b,c} x replacement strings, also in the \"...\"i form on {a,A,b,c} (interleaved with the case-sensitive form) and on UTF-8 subjects over {a,e-acute,CJK}; " +
 		"fmt = %[flags<=2 of -0+space#][width in none,1,5,8][precision in none,.0,.3][verb] x values; inv = inverse pairs / decoders / digests; dsl = capture-state sequences, string-literal escapes, DSL-name binding; verbs = wrapping verbs vs put. " +
 		"distinct_nontrivial = number of evaluations whose expectation was determined by the documentation (not 'unconstrained') and compared"
 	c.Assume("malformed UTF-8 (0xff): the character-aware functions are only required not to crash (docs say nothing); byte-exact functions (digests, base64, hex, ssub/gssub, latin1_to_utf8, format, '.') are asserted on every byte string")
@@ -349,13 +352,16 @@ func run(c *vf.Ctx) {
 			}
 		}
 	}
+	// the termination probes burn CPU time when the defect is present: run them beside the other pools
+	spinDone := make(chan *vf.PoolResult, 1)
+	go func() { spinDone <- c.RunPool(vf.PoolSpec{Worker: "spin", Shards: 4, Procs: 4, StallSecs: 600}) }()
 	merge(c.RunPool(vf.PoolSpec{Worker: "str", Shards: 48}))
 	merge(c.RunPool(vf.PoolSpec{Worker: "regex", Shards: 64}))
 	merge(c.RunPool(vf.PoolSpec{Worker: "fmt", Shards: 32}))
 	merge(c.RunPool(vf.PoolSpec{Worker: "inv", Shards: 16}))
 	merge(c.RunPool(vf.PoolSpec{Worker: "dsl", Shards: 16}))
 	merge(c.RunPool(vf.PoolSpec{Worker: "verbs", Shards: 16}))
-	merge(c.RunPool(vf.PoolSpec{Worker: "spin", Shards: 4, StallSecs: 600}))
+	merge(<-spinDone)
 
 	// evidence: per-function / per-symbol hit counts out of the merged counters
 	calls, asserted, uncon := map[string]int64{}, map[string]int64{}, map[string]int64{}
